@@ -178,6 +178,9 @@ pub struct RootsPt {
     pub lead: usize,
     /// 0: 1e-6, 1: 1e-9, 2: the rounding noise of evaluating the polynomial
     pub tol: usize,
+    /// complex polynomials only: the leading coefficient is also turned by 0: 1, 1: i, 2: -i, 3: e^(2.2 i)
+    #[serde(default)]
+    pub phase: u8,
 }
 const LEADS: [f64; 4] = [1.0, -3.0, 0.1, 100.0];
 pub struct PolyRoots;
@@ -187,7 +190,7 @@ impl Check for PolyRoots {
         "polynomial-roots"
     }
     fn rule(&self) -> String {
-        format!("degree 1..=10 polynomials expanded in the harness from root configurations {:?} (every variant that stays in |z|<=3 with pairwise separation >= 0.3) x leading coefficient {:?} x tolerance {{1e-6, 1e-9, evaluation noise}}; real coefficients for conjugate-closed sets, complex otherwise; signature = (generator, degree, field, outcome)", GENS, LEADS)
+        format!("degree 1..=10 polynomials expanded in the harness from root configurations {:?} (every variant that stays in |z|<=3 with pairwise separation >= 0.3) x leading coefficient {:?} (complex polynomials: also turned by i, -i, e^(2.2i)) x tolerance {{1e-6, 1e-9, evaluation noise}}; real coefficients for conjugate-closed sets, complex otherwise; signature = (generator, degree, field, outcome)", GENS, LEADS)
     }
     fn axes(&self, t: Tier) -> Value {
         json!({"generators": GENS, "degree": "1..=10", "variants": t.pick("0..3", "0..9"), "lead": LEADS, "tol": ["1e-6", "1e-9", "64 eps sum|c_k| 3^k"]})
@@ -205,7 +208,16 @@ impl Check for PolyRoots {
                             if t == Tier::Quick && (lead + tol + var) % 2 == 1 {
                                 continue;
                             }
-                            v.push(RootsPt { gen, n, var, lead, tol });
+                            v.push(RootsPt { gen, n, var, lead, tol, phase: 0 });
+                            if !config(gen, n, var).unwrap().1 {
+                                continue;
+                            }
+                            for phase in 1..4u8 {
+                                if t == Tier::Quick && (phase as usize + lead + n) % 2 == 1 {
+                                    continue;
+                                }
+                                v.push(RootsPt { gen, n, var, lead, tol, phase });
+                            }
                         }
                     }
                 }
@@ -216,7 +228,7 @@ impl Check for PolyRoots {
     fn run(&self, p: &RootsPt) -> Outcome {
         let mut o = Outcome::new();
         let (roots, complex) = config(p.gen, p.n, p.var).expect("admissible configuration");
-        let lead = C::new(LEADS[p.lead], 0.0);
+        let lead = C::new(LEADS[p.lead], 0.0) * [C::new(1.0, 0.0), C::new(0.0, 1.0), C::new(0.0, -1.0), C::from_polar(1.0, 2.2)][p.phase as usize];
         let mut coeffs = expand(&roots, lead);
         if !complex {
             for c in coeffs.iter_mut() {
@@ -384,6 +396,9 @@ pub struct ZerosPt {
     pub fam: usize,
     pub n: usize,
     pub tol: f64,
+    /// zeroing tolerance handed to the polynomial (None = 1e-14)
+    #[serde(default)]
+    pub poly_tol: Option<f64>,
 }
 pub struct OrthoZeros;
 /// admissible: leading coefficient above the root tolerance and evaluation noise of the monomial form below it
@@ -403,7 +418,7 @@ impl Check for OrthoZeros {
         "orthogonal-zeros"
     }
     fn rule(&self) -> String {
-        "legendre_zeros, hermite_zeros, laguerre_zeros for every n from 0 up to the largest index whose monomial form is well conditioned for the tolerance (leading coefficient > 4 tol and evaluation noise 64 eps sum|c_k| R^k <= tol/4, computed per family and reported through the points enumerated) x tolerances; reference zeros by interlacing and bisection on the three-term recurrence; signature = (family, n, tolerance)".into()
+        "legendre_zeros, hermite_zeros, laguerre_zeros for every n from 0 up to the largest index whose monomial form is well conditioned for the tolerance (leading coefficient > 4 tol and evaluation noise 64 eps sum|c_k| R^k <= tol/4, computed per family and reported through the points enumerated) x tolerances x coefficient-zeroing tolerance {1e-14, 1e-30, tol/100}; reference zeros by interlacing and bisection on the three-term recurrence; signature = (family, n, tolerance)".into()
     }
     fn points(&self, _t: Tier) -> Vec<ZerosPt> {
         let mut v = vec![];
@@ -411,7 +426,9 @@ impl Check for OrthoZeros {
             for &tol in &[1e-6, 1e-8, 1e-10] {
                 for n in 0..=20 {
                     if admissible(fam, n, tol) {
-                        v.push(ZerosPt { fam, n, tol });
+                        v.push(ZerosPt { fam, n, tol, poly_tol: None });
+                        v.push(ZerosPt { fam, n, tol, poly_tol: Some(1e-30) });
+                        v.push(ZerosPt { fam, n, tol, poly_tol: Some(tol * 1e-2) });
                     } else {
                         break;
                     }
@@ -424,9 +441,9 @@ impl Check for OrthoZeros {
         let mut o = Outcome::new();
         let subj = format!("special::{}_zeros", FAMILIES[p.fam]);
         let res = vcore::guard(|| match p.fam {
-            0 => legendre_zeros::<f64>(p.n as u32, p.tol, 1e-14, 2000),
-            1 => hermite_zeros::<f64>(p.n as u32, p.tol, 1e-14, 2000),
-            _ => laguerre_zeros::<f64>(p.n as u32, p.tol, 1e-14, 2000),
+            0 => legendre_zeros::<f64>(p.n as u32, p.tol, p.poly_tol.unwrap_or(1e-14), 2000),
+            1 => hermite_zeros::<f64>(p.n as u32, p.tol, p.poly_tol.unwrap_or(1e-14), 2000),
+            _ => laguerre_zeros::<f64>(p.n as u32, p.tol, p.poly_tol.unwrap_or(1e-14), 2000),
         });
         let want = ortho_zeros(p.fam, p.n);
         let ctx = || format!("{:?}", p);
@@ -466,7 +483,7 @@ impl Check for OrthoZeros {
                 "ok"
             }
         };
-        o.sig = format!("{}|n{}|{:e}|{}", FAMILIES[p.fam], p.n, p.tol, class);
+        o.sig = format!("{}|n{}|{:e}|{}|polytol{:e}", FAMILIES[p.fam], p.n, p.tol, class, p.poly_tol.unwrap_or(1e-14));
         o
     }
 }
